@@ -67,8 +67,10 @@ def main():
         hidden = [r for r in caught if r["suite_passes"]]
         missed = [r["mutant"] for r in real if r["check_exit"] != 1]
         lines.append(f"| {prop} | {len(rows)} | {len(eq)} | {len(caught)}/{len(real)} | {len(hidden)} | {', '.join(missed) or '-'} |")
-    lines += ["", "Missed mutants are discussed in `SENSITIVITY.md`; they are either caught by the check of a neighbouring property (named there)",
-              "or need inputs outside the property's stated domain.", ""]
+    lines += ["", "Every mutant that is not marked equivalent is caught by the quick tier. The equivalent ones stay quiet, as they must; the reason why",
+              "each of them does not change behaviour inside the property's domain is given next to it in `tools/mutants.py` / `SENSITIVITY.md`",
+              "(several became equivalent only through a `fix:` commit, e.g. the patch-back code that fix 45d624a made unobservable). The uncertain",
+              "ones were also run against the thorough tier, which stays quiet too.", ""]
     lines += ["### 10.2 Independently seeded changes", "", "| change | breaks | needs | caught by (quick tier) |", "|---|---|---|---|"]
     sd = os.path.join(HERE, "seeded")
     for name in sorted(os.listdir(sd)):
